@@ -187,20 +187,8 @@ class MarginRule(cssrule.CSSRule):
         )
 
         if ok:
-            # TODO: use seq for serializing instead of fixed stuff?
-            self._setSeq(seq)
-
-            if 'margin' in store:
-                # may raise:
-                self.margin = store['margin'].value
-            else:
-                self._log.error(
-                    'No margin @keyword for this %s rule' % self.margin,
-                    error=xml.dom.InvalidModificationErr,
-                )
-
-            # new empty style
-            self.style = CSSStyleDeclaration(parentRule=self)
+            # new empty style, set only after its content is accepted
+            newstyle = CSSStyleDeclaration(parentRule=self)
 
             if 'styletokens' in store:
                 styletokens = store['styletokens']
@@ -213,7 +201,21 @@ class MarginRule(cssrule.CSSRule):
                         if not (t[0] == 'S' and i and styletokens[i - 1][0] == 'S')
                     ]
                 # may raise:
-                self.style.cssText = styletokens
+                newstyle.cssText = styletokens
+
+            # TODO: use seq for serializing instead of fixed stuff?
+            self._setSeq(seq)
+
+            if 'margin' in store:
+                # may raise:
+                self.margin = store['margin'].value
+            else:
+                self._log.error(
+                    'No margin @keyword for this %s rule' % self.margin,
+                    error=xml.dom.InvalidModificationErr,
+                )
+
+            self.style = newstyle
 
     cssText = property(
         fget=_getCssText,
